@@ -115,6 +115,21 @@ var c07Traversals = []string{"../x", "../../x", "a/../../x", "..", "../", "a/../
 var c07Odd = []string{"/abs", "/", "a/./b", "a//b", "a/", ".", "a..b", "..a", "a..", "...", "..\\x", "a\\..\\b", "....//x", "\x00", "a/\x00/b", " ", "é/..x"}
 
 func c07Hostile(r *hx.Rand) string {
+	if r.Intn(6) == 0 {
+		// a traversal inside a path that is also too long (1024 is the protocol's limit):
+		// whichever check comes first must not hide the other
+		t := c07Traversals[r.Intn(len(c07Traversals))]
+		switch r.Intn(4) {
+		case 0:
+			return t + "/" + strings.Repeat("p", 1030)
+		case 1:
+			return strings.Repeat("q/", 520) + strings.Repeat("../", 523) + "x"
+		case 2:
+			return t + "/" + strings.Repeat("r", 1024-len(t)-1) // exactly 1024 bytes
+		default:
+			return strings.Repeat("../", 2) + strings.Repeat("L", 255) + "/" + strings.Repeat("M", 255) + "/" + strings.Repeat("N", 255) + "/" + strings.Repeat("O", 255) + "/x"
+		}
+	}
 	if r.Intn(3) > 0 {
 		return c07Traversals[r.Intn(len(c07Traversals))]
 	}
@@ -819,7 +834,9 @@ func c07OneApp(cfg config, rep *hx.Report, cf *hx.CasesFile, id *int, sbBase str
 
 // the replays of the defects found on the tree before the fix: reported again if one returns
 func c07Corpus() []c07Scn {
-	f := func(rel, id string, size int64) manifest.FileItem { return manifest.FileItem{RelPath: rel, ID: id, Size: size} }
+	f := func(rel, id string, size int64) manifest.FileItem {
+		return manifest.FileItem{RelPath: rel, ID: id, Size: size}
+	}
 	return []c07Scn{
 		{Kind: "dir-item", NoRoot: true, Items: []manifest.FileItem{{RelPath: "../x/made", IsDir: true}}},
 		{Kind: "dir-item", NoRoot: false, Root: "r", Items: []manifest.FileItem{{RelPath: "../../x/made", IsDir: true}}},
